@@ -42,11 +42,19 @@ def expandTabs (s : Str) : Str := expandTabsFrom 0 s
 
 def allDigits (s : Str) : Bool := !s.isEmpty && s.all Char.isDigit
 
+/-- blanks that `int()` / `float()` skip around a number: the C `isspace` set for ASCII (so not
+U+001C…U+001F, which `str.isspace` accepts) and every non-ASCII Unicode space -/
+def isNumSpace (c : Char) : Bool :=
+  let n := c.toNat
+  (9 ≤ n && n ≤ 13) || n = 32 || (128 ≤ n && isSpace c)
+
+def numStrip (s : Str) : Str := rstripP isNumSpace (lstripP isNumSpace s)
+
 /-- `int(s)` for the inputs the format produces: optional surrounding blanks, ASCII decimal
 digits.  (Signs, `_` separators and non-ASCII digits are outside the model: `none` here stands
 for ValueError and the generators do not produce those spellings.) -/
 def parseNat (s : Str) : Option Nat :=
-  let t := strip s
+  let t := numStrip s
   if allDigits t then some (Nat.ofDigitChars 10 t 0) else none
 
 /-- the double nearest to `n` (round half to even), as an exact natural number; `none` when it
@@ -67,7 +75,7 @@ deriving DecidableEq, Repr
 
 /-- `int(float(s))` for blank-padded ASCII digit strings -/
 def parseFloatNat (s : Str) : Except NumErr Nat :=
-  let t := strip s
+  let t := numStrip s
   if allDigits t then
     match roundToDouble (Nat.ofDigitChars 10 t 0) with
     | some v => .ok v
@@ -79,12 +87,14 @@ def parseFloatNat (s : Str) : Except NumErr Nat :=
 (ValueError).  Python literals outside this list (strings, tuples, floats…) are outside the
 model and not generated. -/
 def evalBool (s : Str) : Option Bool :=
-  let t := rstripP isSpace s
+  let t := rstripP (fun c => c = ' ' || c = '\t' || c = '\x0c') s     -- what the Python tokenizer skips
   if t = ['T', 'r', 'u', 'e'] then some true
   else if t = ['F', 'a', 'l', 's', 'e'] then some false
   else if t = ['N', 'o', 'n', 'e'] then some false
-  else if t = ['0'] then some false
-  else if allDigits t ∧ t.head? ≠ some '0' then some true
+  else if allDigits t then
+    (if t.all (fun c => c = '0') then some false          -- `0`, `00`, …
+     else if t.head? = some '0' then none                 -- `01` is a SyntaxError
+     else some true)
   else none
 
 /-- `'%s' % b` -/
